@@ -38,8 +38,10 @@ def run(ctx, replay_case):
         for k in ks:
             derived.append(ds.Case(c.tname, c.cc, c.enc, c.data[:k], "truncated", None, {"full": b, "cut": k, "base": c}))
         if c.tname != "Stream":
-            for m in (1, 2, 5):
-                suffix = bytes(rnd.randrange(256) for _ in range(m))
+            # (long surpluses too, and whole messages as surplus: what the error carries is ALL the bytes left - seed C05l cut the
+            # stored bytes to the 32 its message shows)
+            for m in (1, 2, 5, rnd.choice([31, 32, 33, 48, 100, 300, 1000])):
+                suffix = bytes(rnd.randrange(256) for _ in range(m)) if (rnd.random() < 0.8 or not c.data) else (c.data * (m // len(c.data) + 1))[:m]
                 derived.append(ds.Case(c.tname, c.cc, c.enc, c.data + suffix, "surplus", None,
                                        {"full": b, "suffix": suffix, "base": c}))
     # the empty input, for every type
